@@ -1,244 +1,2 @@
-(* Theorems about the relational model of the dataset-wide layers (Model/Relational.v). *)
-From Connectome Require Import Values NameSet MiscGen Relational.
-From Coq Require Import Sorting.Sorted.
-Local Open Scope list_scope.
-
-(* ---------- sorting ---------- *)
-Lemma sleb_total a b : sleb a b = false -> sleb b a = true.
-Proof.
-  unfold sleb. rewrite (String.compare_antisym b a). destruct (String.compare a b); cbn; congruence.
-Qed.
-Lemma sinsert_in x y l : In y (sinsert x l) <-> y = x \/ In y l.
-Proof.
-  induction l as [|a l IH]; cbn; [intuition congruence|]. destruct (sleb x a); cbn; [intuition congruence|]. rewrite IH. intuition congruence.
-Qed.
-Lemma ssort_in y l : In y (ssort l) <-> In y l.
-Proof. induction l as [|a l IH]; [cbn; tauto|]. change (ssort (a :: l)) with (sinsert a (ssort l)). rewrite sinsert_in, IH. cbn. intuition congruence. Qed.
-Lemma sinsert_length x l : List.length (sinsert x l) = S (List.length l).
-Proof. induction l as [|a l IH]; cbn; [reflexivity|]. destruct (sleb x a); cbn; congruence. Qed.
-Lemma ssort_length l : List.length (ssort l) = List.length l.
-Proof. induction l as [|a l IH]; [reflexivity|]. change (ssort (a :: l)) with (sinsert a (ssort l)). rewrite sinsert_length, IH. reflexivity. Qed.
-
-Definition sle (a b : string) : Prop := sleb a b = true.
-Lemma sinsert_sorted x l : Sorted sle l -> Sorted sle (sinsert x l).
-Proof.
-  induction 1 as [|a l Hs IH Hd]; cbn; [repeat constructor|].
-  destruct (sleb x a) eqn:E.
-  - constructor; [constructor; assumption|constructor; exact E].
-  - constructor; [exact IH|]. destruct l as [|b l]; cbn.
-    + constructor. apply sleb_total. exact E.
-    + destruct (sleb x b); constructor; [apply sleb_total; exact E|]. inversion Hd; assumption.
-Qed.
-Lemma ssort_sorted l : Sorted sle (ssort l).
-Proof. induction l as [|a l IH]; [constructor|]. change (ssort (a :: l)) with (sinsert a (ssort l)). apply sinsert_sorted; exact IH. Qed.
-
-Lemma snodup_in y l : In y (snodup l) <-> In y l.
-Proof.
-  induction l as [|a l IH]; cbn; [tauto|]. destruct (lmem a l) eqn:E; cbn; rewrite IH; [|tauto].
-  apply lmem_In in E. split; [tauto|]. intros [<-|H]; auto.
-Qed.
-Lemma snodup_nodup l : NoDup (snodup l).
-Proof.
-  induction l as [|a l IH]; cbn; [constructor|]. destruct (lmem a l) eqn:E; [exact IH|].
-  constructor; [|exact IH]. rewrite snodup_in. apply lmem_false. exact E.
-Qed.
-Lemma sset_in y l : In y (sset l) <-> In y l.
-Proof. unfold sset. rewrite ssort_in, snodup_in. tauto. Qed.
-
-(* ---------- Merge ---------- *)
-Lemma slookup_in {V} (t : list (string * V)) k v : slookup t k = Some v -> In (k, v) t.
-Proof.
-  induction t as [|[k' v'] t IH]; cbn; [discriminate|]. destruct (String.eqb_spec k k'); [intros [= <-]; subst; auto|auto].
-Qed.
-Lemma slookup_none {V} (t : list (string * V)) k : slookup t k = None <-> ~ In k (map fst t).
-Proof.
-  induction t as [|[k' v'] t IH]; cbn; [tauto|]. destruct (String.eqb_spec k k'); [subst; split; [discriminate|tauto]|].
-  rewrite IH. split; [intros H [E|E]; [congruence|tauto]|tauto].
-Qed.
-Lemma slookup_app {V} (a b : list (string * V)) k :
-  slookup (a ++ b) k = match slookup a k with Some v => Some v | None => slookup b k end.
-Proof. induction a as [|[k' v'] a IH]; cbn; [reflexivity|]. destruct (String.eqb k k'); [reflexivity|exact IH]. Qed.
-Lemma slookup_const (k0 : nat) (ds : list string) i : slookup (map (fun j => (j, k0)) ds) i = if lmem i ds then Some k0 else None.
-Proof.
-  induction ds as [|a ds IH]; cbn; [reflexivity|]. destruct (String.eqb i a); cbn; [reflexivity|exact IH].
-Qed.
-
-Fixpoint owner_of (dss : list (list string)) (j : nat) (i : string) : option nat :=
-  match dss with [] => None | ds :: r => if lmem i ds then Some j else owner_of r (S j) i end.
-
-(* the routing table: an id maps to k exactly when dataset k (counted from the first one) is the first to contain it *)
-Lemma merge_table_from_spec : forall dss k acc t,
-  merge_table_from k dss acc = Some t ->
-  forall i, slookup t i = match slookup acc i with Some j => Some j | None => owner_of dss k i end.
-Proof.
-  induction dss as [|ds rest IH]; intros k acc t H i; cbn in H.
-  - injection H as <-. destruct (slookup acc i); reflexivity.
-  - destruct (existsb _ (snodup ds)) eqn:E; [discriminate|].
-    rewrite (IH _ _ _ H i), slookup_app, slookup_const. cbn [owner_of].
-    destruct (slookup acc i) as [j|] eqn:Ea; [reflexivity|].
-    assert (Hm : lmem i (snodup ds) = lmem i ds).
-    { destruct (lmem i ds) eqn:E1; [apply lmem_In, snodup_in, lmem_In; exact E1|apply lmem_false; rewrite snodup_in; apply lmem_false; exact E1]. }
-    rewrite Hm. destruct (lmem i ds); reflexivity.
-Qed.
-
-Theorem merge_table_routes dss t : merge_table dss = Some t -> forall i, slookup t i = owner_of dss 0 i.
-Proof. intros H i. rewrite (merge_table_from_spec dss 0 [] t H i). reflexivity. Qed.
-
-(* overlapping datasets are rejected: if an id occurs in two datasets no table is built *)
-Lemma merge_table_from_keys : forall dss k acc t, merge_table_from k dss acc = Some t -> forall i, In i (map fst acc) -> In i (map fst t).
-Proof.
-  induction dss as [|ds rest IH]; intros k acc t H i Hi; cbn in H; [injection H as <-; exact Hi|].
-  destruct (existsb _ (snodup ds)); [discriminate|]. apply (IH _ _ _ H). rewrite map_app, in_app_iff. left. exact Hi.
-Qed.
-Theorem merge_overlap_rejected : forall dss k acc i,
-  In i (map fst acc) -> (exists ds, In ds dss /\ In i ds) -> merge_table_from k dss acc = None.
-Proof.
-  induction dss as [|ds rest IH]; intros k acc i Hacc [ds0 [Hin Hi]]; [destruct Hin|]. cbn.
-  destruct (existsb _ (snodup ds)) eqn:E; [reflexivity|].
-  destruct Hin as [<-|Hin].
-  - exfalso. assert (existsb (fun i0 => lmem i0 (map fst acc)) (snodup ds) = true); [|congruence].
-    apply existsb_exists. exists i. split; [apply snodup_in; exact Hi|apply lmem_In; exact Hacc].
-  - apply (IH _ _ i); [rewrite map_app, in_app_iff; left; exact Hacc|exists ds0; auto].
-Qed.
-Theorem merge_two_overlap_rejected a b rest i : In i a -> In i b -> merge_table (a :: b :: rest) = None.
-Proof.
-  intros Ha Hb. unfold merge_table. cbn [merge_table_from].
-  assert (E : existsb (fun i0 : string => lmem i0 (map fst (@nil (string * nat)))) (snodup a) = false).
-  { clear. induction (snodup a) as [|x l IH]; cbn; auto. }
-  rewrite E. cbn [app]. apply (merge_overlap_rejected (b :: rest) 1 _ i).
-  - rewrite map_map. cbn. rewrite map_id. apply snodup_in. exact Ha.
-  - exists b. split; [left; reflexivity|exact Hb].
-Qed.
-
-Theorem merged_ids_spec t i : In i (merged_ids t) <-> In i (map fst t).
-Proof. unfold merged_ids. apply ssort_in. Qed.
-Theorem merged_ids_sorted t : Sorted sle (merged_ids t).
-Proof. apply ssort_sorted. Qed.
-
-(* ---------- Filter / CheckIds ---------- *)
-Theorem filter_ids_spec p ids i : In i (filter_ids p ids) <-> In i ids /\ p i = true.
-Proof. apply filter_In. Qed.
-Theorem filter_stacked p q ids : filter_ids q (filter_ids p ids) = filter_ids (fun i => p i && q i) ids.
-Proof.
-  unfold filter_ids. induction ids as [|a l IH]; [reflexivity|]. cbn. destruct (p a); cbn; [destruct (q a); cbn; rewrite IH; reflexivity|exact IH].
-Qed.
-(* the original order is kept: filtering commutes with taking any prefix/suffix split *)
-Theorem filter_keeps_order p a b : filter_ids p (a ++ b) = filter_ids p a ++ filter_ids p b.
-Proof. apply filter_app. Qed.
-Theorem keep_drop_spec sel ids i :
-  (In i (filter_ids (keep_pred sel) ids) <-> In i ids /\ In i sel) /\ (In i (filter_ids (drop_pred sel) ids) <-> In i ids /\ ~ In i sel).
-Proof.
-  unfold filter_ids, keep_pred, drop_pred. rewrite !filter_In, negb_true_iff, lmem_In, lmem_false. tauto.
-Qed.
-Theorem check_id_spec ids i : check_id ids i = true <-> In i ids.
-Proof. apply lmem_In. Qed.
-
-(* ---------- Join ---------- *)
-Theorem join_partition l r k :
-  (In k (join_inner l r) <-> In k (map snd l) /\ In k (map snd r)) /\
-  (In k (join_left_only l r) <-> In k (map snd l) /\ ~ In k (map snd r)) /\
-  (In k (join_right_only l r) <-> In k (map snd r) /\ ~ In k (map snd l)).
-Proof.
-  unfold join_inner, join_left_only, join_right_only, keys_of.
-  rewrite !filter_In, !negb_true_iff, !lmem_In, !lmem_false, !snodup_in. tauto.
-Qed.
-Theorem join_ids_spec how l r k :
-  In k (join_ids how l r) <->
-  (In k (map snd l) /\ In k (map snd r)) \/
-  (ids_uses_left how = true /\ In k (map snd l) /\ ~ In k (map snd r)) \/
-  (ids_uses_right how = true /\ In k (map snd r) /\ ~ In k (map snd l)).
-Proof.
-  unfold join_ids. rewrite sset_in, !in_app_iff.
-  destruct (join_partition l r k) as (A & B & C). rewrite A.
-  destruct (ids_uses_left how), (ids_uses_right how); cbn [In]; rewrite ?B, ?C; intuition congruence.
-Qed.
-Theorem join_ids_sorted how l r : Sorted sle (join_ids how l r).
-Proof. apply ssort_sorted. Qed.
-Theorem join_modes :
-  (forall l r k, In k (join_ids JInner l r) <-> In k (map snd l) /\ In k (map snd r)) /\
-  (forall l r k, In k (join_ids JLeft l r) <-> In k (map snd l)) /\
-  (forall l r k, In k (join_ids JRight l r) <-> In k (map snd r)) /\
-  (forall l r k, In k (join_ids JOuter l r) <-> In k (map snd l) \/ In k (map snd r)).
-Proof.
-  repeat split; intros; try (apply join_ids_spec in H; cbn in H); try (apply join_ids_spec; cbn);
-    try (destruct (in_dec string_dec k (map snd l)); destruct (in_dec string_dec k (map snd r))); intuition congruence.
-Qed.
-Theorem join_entry_spec side k i : join_entry side k = Some i -> In (i, k) side.
-Proof.
-  unfold join_entry, ids_with. induction side as [|[a b] s IH]; cbn; [discriminate|].
-  destruct (String.eqb_spec b k); cbn; [intros [= <-]; subst; auto|auto].
-Qed.
-Theorem join_entry_none side k : join_entry side k = None <-> ~ In k (map snd side).
-Proof.
-  unfold join_entry, ids_with. induction side as [|[a b] s IH]; cbn; [tauto|].
-  destruct (String.eqb_spec b k); cbn; [subst; split; [discriminate|tauto]|]. rewrite IH. split; [intros H [E|E]; [congruence|tauto]|tauto].
-Qed.
-(* duplicate keys on a side are exactly what dup_keys detects (JoinMapping rejects them through reverse_func) *)
-Theorem dup_keys_spec side : dup_keys side = false <-> forall k, List.length (ids_with side k) <= 1.
-Proof.
-  unfold dup_keys. split.
-  - intros H k. destruct (in_dec string_dec k (map snd side)) as [Hin|Hn].
-    + assert (Hk : In k (keys_of side)) by (apply snodup_in; exact Hin).
-      destruct (Nat.ltb 1 (List.length (ids_with side k))) eqn:E; [|apply Nat.ltb_ge in E; exact E].
-      exfalso. assert (existsb (fun k0 => Nat.ltb 1 (List.length (ids_with side k0))) (keys_of side) = true); [|congruence].
-      apply existsb_exists. exists k. auto.
-    + unfold ids_with. assert (filter (fun e : string * string => String.eqb (snd e) k) side = []) as ->; [|cbn; lia].
-      clear - Hn. induction side as [|[a b] s IH]; cbn in *; [reflexivity|]. destruct (String.eqb_spec b k); [tauto|apply IH; tauto].
-  - intros H. destruct (existsb _ (keys_of side)) eqn:E; [|reflexivity]. apply existsb_exists in E as [k [_ Hk]].
-    apply Nat.ltb_lt in Hk. specialize (H k). lia.
-Qed.
-
-(* ---------- GroupBy ---------- *)
-Theorem group_partition ids key i : In i ids ->
-  In (key i) (group_keys ids key) /\ In i (group_members ids key (key i)) /\
-  forall k, In i (group_members ids key k) -> k = key i.
-Proof.
-  intros Hi. unfold group_keys, group_members. repeat split.
-  - apply sset_in. apply in_map. exact Hi.
-  - apply ssort_in, filter_In. split; [exact Hi|apply String.eqb_refl].
-  - intros k H. apply ssort_in, filter_In in H as [_ H]. apply String.eqb_eq in H. congruence.
-Qed.
-Theorem group_members_spec ids key k i : In i (group_members ids key k) <-> In i ids /\ key i = k.
-Proof. unfold group_members. rewrite ssort_in, filter_In, String.eqb_eq. tauto. Qed.
-Theorem group_keys_spec ids key k : In k (group_keys ids key) <-> exists i, In i ids /\ key i = k.
-Proof.
-  unfold group_keys. rewrite sset_in, in_map_iff. split; intros [i [A B]]; exists i; tauto.
-Qed.
-Theorem group_sorted ids key k : Sorted sle (group_keys ids key) /\ Sorted sle (group_members ids key k).
-Proof. split; apply ssort_sorted. Qed.
-
-(* ---------- Split ---------- *)
-Theorem split_pairs_spec ids parts new old part :
-  In (new, (old, part)) (split_pairs ids parts) <-> In old ids /\ In (new, part) (parts old).
-Proof.
-  unfold split_pairs. rewrite in_flat_map. split.
-  - intros [o [Ho Hin]]. apply in_map_iff in Hin as [[n p] [E Hp]]. cbn in E. injection E as <- <- <-. auto.
-  - intros [Ho Hp]. exists old. split; [exact Ho|]. apply in_map_iff. exists (new, part). auto.
-Qed.
-Theorem split_ids_spec ids parts new : In new (split_ids ids parts) <-> exists old part, In old ids /\ In (new, part) (parts old).
-Proof.
-  unfold split_ids. rewrite ssort_in, in_map_iff. split.
-  - intros [[n [o p]] [E H]]. cbn in E. subst n. apply split_pairs_spec in H. exists o, p. exact H.
-  - intros (o & p & H). exists (new, (o, p)). split; [reflexivity|apply split_pairs_spec; exact H].
-Qed.
-(* without collisions every new id has exactly one (old id, part) *)
-Theorem split_unique ids parts new a b :
-  split_collides ids parts = false ->
-  In (new, a) (split_pairs ids parts) -> In (new, b) (split_pairs ids parts) -> a = b.
-Proof.
-  unfold split_collides. intros Hc. apply negb_false_iff, Nat.eqb_eq in Hc.
-  assert (Hnd : NoDup (map fst (split_pairs ids parts))).
-  { generalize dependent (map fst (split_pairs ids parts)). intros l. induction l as [|x l IH]; cbn; [constructor|].
-    destruct (lmem x l) eqn:E; intros H.
-    - exfalso. pose proof (snodup_nodup l) as Hn.
-      assert (List.length (snodup l) <= List.length l).
-      { clear. induction l as [|y l IH]; cbn; [lia|]. destruct (lmem y l); cbn; lia. }
-      lia.
-    - cbn in H. constructor; [apply lmem_false; exact E|apply IH; lia]. }
-  clear Hc. generalize dependent (split_pairs ids parts). intros l Hnd. induction l as [|[n v] l IH]; cbn; [tauto|].
-  inversion Hnd as [|? ? Hx Hnd']; subst. intros [E1|H1] [E2|H2].
-  - congruence.
-  - injection E1 as -> ->. exfalso. apply Hx. apply in_map_iff. exists (new, b). auto.
-  - injection E2 as -> ->. exfalso. apply Hx. apply in_map_iff. exists (new, a). auto.
-  - apply IH; assumption.
-Qed.
+(* All the facts about the relational model (kept for files that want everything). *)
+From Connectome Require Export SortFacts MergeFacts FilterFacts JoinFacts GroupFacts SplitFacts.
